@@ -104,6 +104,50 @@ pub fn gen(seed: u64, thorough: bool) {
         push_u(&mut line, overlaps);
         println!("{}", line);
     }
+    // ---- (a1) copies of an engine: `clone()` and `Engine::new` from the parts carry exactly the state of the original.
+    // The whole state is compared through `Debug` (it shows the stored linear gain, which the dB getter rounds away) for many
+    // settings, and the waveform for the first difference found and for a few settings anyway
+    // (seeded change C03g: copies rebuilt through the setters; the dB round trip of the volume is not exact for ~0.5 % of values)
+    {
+        let mut e = Engine::load(&[BUNDLED_VOICE]).expect("bundled voice");
+        e.condition.set_fperiod(24);
+        let lines = src.labels(&mut rng, 2, false);
+        let nvol = if thorough { 60000 } else { 6000 };
+        let mut state_diffs = 0usize;
+        let mut wave_diffs = 0usize;
+        let mut waves = 0usize;
+        let mut first_bad = 0.0f64;
+        for j in 0..nvol {
+            let v = match j % 3 { 0 => (rng.range(0, 400) as f64 - 200.0) / 10.0, 1 => rng.uniform(-20.0, 20.0), _ => rng.uniform(-60.0, 60.0) };
+            e.condition.set_volume(v);
+            e.condition.set_speed(rng.uniform(0.5, 2.0));
+            e.condition.set_additional_half_tone(rng.uniform(-12.0, 12.0));
+            e.condition.set_alpha(rng.unit());
+            e.condition.set_beta(rng.unit() * 0.5);
+            e.condition.set_msd_threshold(1, rng.unit());
+            e.condition.set_gv_weight(0, rng.uniform(0.0, 2.0));
+            let c1 = e.clone();
+            let c2 = Engine::new(e.voices.clone(), e.condition.clone());
+            let d0 = format!("{:?}", e.condition);
+            let differs = format!("{:?}", c1.condition) != d0 || format!("{:?}", c2.condition) != d0;
+            if differs { state_diffs += 1; if state_diffs == 1 { first_bad = v; } }
+            if (differs && wave_diffs == 0) || j % (nvol / 4) == 0 {
+                waves += 1;
+                let w0 = e.synthesize(lines.clone()).unwrap();
+                if !bits_eq(&c1.synthesize(lines.clone()).unwrap(), &w0) || !bits_eq(&c2.synthesize(lines.clone()).unwrap(), &w0) {
+                    wave_diffs += 1;
+                    if wave_diffs == 1 { first_bad = v; }
+                }
+            }
+        }
+        let mut line = String::from("clones");
+        push_u(&mut line, nvol);
+        push_u(&mut line, waves);
+        push_u(&mut line, state_diffs);
+        push_u(&mut line, wave_diffs);
+        push_f(&mut line, first_bad);
+        println!("{}", line);
+    }
     // ---- (a2) rate / frame-period histories with alignment on and time-stamped strings
     gen_units(&mut rng, &src, if thorough { 300 } else { 40 });
     // ---- (b) setter histories ending in the same values: same getters, same waveform
